@@ -494,6 +494,10 @@ func init() {
 		return r, true
 	})
 	libFrames["strings.Split"] = map[string]Sort{}
+	regModel("(*strings.Builder).Grow", func(x *Exec, fr *Frame, st *State, a []Value, pos token.Pos, rt types.Type) (Value, bool) {
+		x.oblige(fr, st, "bounds", "Grow:"+x.srcText(fr.fn, pos, isCall), "strings.Builder.Grow panics on a negative count", pos, Ge(tOf(a[1]), IntLit(0)), nil)
+		return VStruct{}, true
+	})
 	regModel("strings.Join", func(x *Exec, fr *Frame, st *State, a []Value, pos token.Pos, rt types.Type) (Value, bool) {
 		// pure: reads its arguments, returns a new string
 		r := x.vc.Fresh("joined", SStr)
